@@ -478,20 +478,37 @@ def r4(repo, chk, ref):
     # varint encoder: if-chain on value <= T_i
     pv = cu.func("Buffer_push_uint_var")
     branches = []
-    node = next((x for x in cq.kids(cq.body(pv)) if x.get("kind") == "IfStmt" and ctext(strip(cq.kids(x)[0])).startswith("value <= ")), None)
-    while node is not None and node.get("kind") == "IfStmt":
-        ks = cq.kids(node)
-        cond = strip(ks[0])
-        thr = None
-        if cond.get("kind") == "BinaryOperator" and cond.get("opcode") == "<=" and ctext(strip(cq.kids(cond)[0])) == "value":
-            thr = cq.ceval(cq.kids(cond)[1])
-        then = ks[1]
+    # the range cases: an if / else-if chain, or sequential ifs each of which returns (same thing)
+    def _cases(stmts):
+        out, tail = [], None
+        i = 0
+        while i < len(stmts):
+            x = stmts[i]
+            if x.get("kind") == "IfStmt" and ctext(strip(cq.kids(x)[0])).startswith("value <= "):
+                node_ = x
+                while node_ is not None and node_.get("kind") == "IfStmt":
+                    ks = cq.kids(node_)
+                    cond = strip(ks[0])
+                    thr = cq.ceval(cq.kids(cond)[1]) if cond.get("kind") == "BinaryOperator" and cond.get("opcode") == "<=" and ctext(strip(cq.kids(cond)[0])) == "value" else None
+                    out.append((thr, ks[1]))
+                    node_ = ks[2] if len(ks) > 2 else None
+                if node_ is not None:
+                    tail = node_
+            elif out:
+                tail = {"kind": "CompoundStmt", "inner": stmts[i:]} if tail is None else tail
+                break
+            i += 1
+        return out, tail
+
+    raw, node = _cases(cq.kids(cq.body(pv)))
+    # a case that falls through to the next `if` must end in a return, otherwise the thresholds are not exclusive
+    exclusive = all(any(n.get("kind") == "ReturnStmt" for n in cq.preorder(then)) for thr, then in raw)
+    for thr, then in raw:
         stores = []
         for x in cq.preorder(then):
             if x.get("kind") == "BinaryOperator" and x.get("opcode") == "=" and "self->pos++" in ctext(strip(cq.kids(x)[0])):
                 stores.append(_shift_mask(cq.kids(x)[1]))
         branches.append((thr, stores))
-        node = ks[2] if len(ks) > 2 else None
     V = ref["varint"]
     okv = [b[0] for b in branches] == V["thresholds"]
     chk.ob("R4", "Buffer.push_uint_var switches encodings at 2^6-1, 2^14-1, 2^30-1, 2^62-1", okv, f"thresholds {[b[0] for b in branches]}", cu.loc(pv))
@@ -501,7 +518,7 @@ def r4(repo, chk, ref):
     # the too-big value raises
     tail = node
     raises = any(cq.callee(c) == "PyErr_SetString" for c in cq.calls(pv))
-    chk.ob("R4", "Buffer.push_uint_var refuses values above 2^62-1", raises and len(branches) == 4, "", cu.loc(pv))
+    chk.ob("R4", "Buffer.push_uint_var refuses values above 2^62-1", raises and len(branches) == 4 and exclusive, "", cu.loc(pv))
     # varint decoder: switch on *(pos) >> 6
     pl = cu.func("Buffer_pull_uint_var")
     sw = next((x for x in cq.preorder(cq.body(pl)) if x.get("kind") == "SwitchStmt"), None)
